@@ -9,7 +9,7 @@ from hypothesis import strategies as st
 
 from vlib.core import Part, Violation, Discard, call
 
-from mitxgraders import MatrixGrader
+from mitxgraders import MatrixGrader, ListGrader, DependentSampler, RandomFunction
 from mitxgraders.helpers.calc import evaluator, MathArray
 from mitxgraders.sampling import set_seed
 from mitxgraders.exceptions import StudentFacingError
@@ -919,9 +919,27 @@ def judge_negpow(spec, rec):
                        negative_powers=(who == 'g1'))
             if who == 'g0s':
                 cfg['suppress_matrix_messages'] = True
-            grader = MatrixGrader(**cfg)
-            set_seed(stp['seed'])
-            status, out = call(grader, None, text)
+            # what else the problem declares must not matter for the switch: a dependent variable (sampled through a
+            # formula of its own), a random function, or the grader serving one box of an ordered list whose answer
+            # refers to a sibling box (siblings are sampled as dependent variables too)
+            flavour = stp['seed'] % 4
+            if flavour == 1:
+                cfg.update(variables=['u', 'w'], sample_from={'u': [1, 2], 'w': DependentSampler(depends=['u'], formula='u+1')})
+            elif flavour == 2:
+                cfg.update(variables=['u'], user_functions={'rf': RandomFunction()},
+                           sample_from={'u': DependentSampler(depends=[], formula='2*3')})
+            rec.cls('negpow:grader-flavour-%d' % flavour)
+            if flavour == 3:
+                sub_cfg = {k: v for k, v in cfg.items() if k != 'answers'}
+                grader = ListGrader(answers=['7', '(%s)+0*sibling_1' % answer], subgraders=MatrixGrader(**sub_cfg), ordered=True)
+                set_seed(stp['seed'])
+                status, out = call(grader, None, ['7', text])
+                if status == 'ok':
+                    out = out['input_list'][1]
+            else:
+                grader = MatrixGrader(**cfg)
+                set_seed(stp['seed'])
+                status, out = call(grader, None, text)
             rec.calls()
             if status == 'err':
                 check_error('negpow', out, ctx)
